@@ -168,6 +168,21 @@ class YAMLPath:
             self.original = path_now[
                 0:len(path_now) - len(removable_segment) + 1]
 
+        # The textual trim above can miss (or over-trim) when the popped
+        # segment was spelled differently than its canonical form; when the
+        # result does not parse back to the remaining segments, rebuild it.
+        remaining = YAMLPath._stringify_yamlpath_segments(
+            segments, PathSeparators.FSLASH)
+        try:
+            trimmed = YAMLPath._stringify_yamlpath_segments(
+                YAMLPath(self.original).unescaped, PathSeparators.FSLASH)
+        except YAMLPathException:
+            trimmed = None
+        if trimmed != remaining:
+            separator = self.separator
+            self.original = YAMLPath._stringify_yamlpath_segments(
+                segments, separator)
+
         return popped_segment
 
     @property
